@@ -40,29 +40,30 @@ type SParam struct {
 }
 
 type FuncContract struct {
-	Key         string
-	Requires    []*Clause
-	Ensures     []*Clause
-	Modifies    []SExpr
-	ModSrc      []string
-	HasMod      bool
-	Loops       map[int]*LoopSpec
-	Split       *SplitSpec
-	Trusted     bool // body not verified: the contract is an assumption
-	TrustedPost bool // body verified for safety/pre/lock/frame only: the ensures clauses are assumptions
-	Pure        bool // no heap effect at all
-	Inline      bool
-	Implements  []string
-	Assumed     bool // comes from the assumed-contract files (dependency)
-	Params      []string
-	File        string
-	Line        int
-	Spec        *SpecFile
-	NoPanic     bool
-	Fresh       bool // results are freshly allocated objects
-	Reveals     []string
-	Asserts     []*AssertSpec
-	Preserves   []SExpr // objects that calls with an unbounded frame (function values, unspecified externals) cannot reach
+	Key                     string
+	Requires                []*Clause
+	Ensures                 []*Clause
+	Modifies                []SExpr
+	ModSrc                  []string
+	HasMod                  bool
+	Loops                   map[int]*LoopSpec
+	Split                   *SplitSpec
+	Trusted                 bool // body not verified: the contract is an assumption
+	TrustedPost             bool // body verified for safety/pre/lock/frame only: the ensures clauses are assumptions
+	Pure                    bool // no heap effect at all
+	Inline                  bool
+	Implements              []string
+	Assumed                 bool // comes from the assumed-contract files (dependency)
+	Params                  []string
+	File                    string
+	Line                    int
+	Spec                    *SpecFile
+	NoPanic                 bool
+	Fresh                   bool // results are freshly allocated objects
+	Reveals                 []string
+	Asserts                 []*AssertSpec
+	LoopsAssumedToTerminate map[int]string // loop ordinal -> reason (non-range loops without a decreases clause)
+	Preserves               []SExpr        // objects that calls with an unbounded frame (function values, unspecified externals) cannot reach
 }
 
 // AssertSpec: an assertion checked just before the call whose source text contains Key.
@@ -447,6 +448,20 @@ func (cs *Contracts) LoadFile(path, pkgPath string, fromRepo bool) error {
 				return err
 			}
 			cur.Asserts = append(cur.Asserts, &AssertSpec{Key: key, Clause: cl})
+		case "loop-terminates":
+			// loop-terminates N: reason   (an assumption, listed in the evidence)
+			if cur == nil {
+				return errf("loop-terminates outside func")
+			}
+			i := strings.Index(rest, ":")
+			nn, err := strconv.Atoi(strings.TrimSpace(rest[:i]))
+			if err != nil {
+				return errf("loop-terminates N: reason")
+			}
+			if cur.LoopsAssumedToTerminate == nil {
+				cur.LoopsAssumedToTerminate = map[int]string{}
+			}
+			cur.LoopsAssumedToTerminate[nn] = strings.TrimSpace(rest[i+1:])
 		case "preserves":
 			if cur == nil {
 				return errf("preserves outside func")
